@@ -189,6 +189,20 @@ func (s *Store) UserByLogin(login string) (UserSpec, bool) {
 	return u, ok
 }
 
+// ReplaceSP re-registers a service provider: its metadata is rebuilt from the spec and replaces the stored instance.
+func (s *Store) ReplaceSP(sp SPSpec) error {
+	inst, err := serviceprovider.NewServiceProvider(sp.AppID, &serviceprovider.Config{Metadata: sp.MetadataXML()}, sp.LoginURL)
+	if err != nil {
+		return err
+	}
+	s.mu.Lock()
+	defer s.mu.Unlock()
+	s.sps[sp.EntityID] = inst
+	s.spSpecs[sp.EntityID] = sp
+	s.apps[sp.AppID] = sp.EntityID
+	return nil
+}
+
 // --- provider.Storage ---
 
 func (s *Store) Health(context.Context) error {
